@@ -299,7 +299,44 @@ fn long_lists(run: &Run) {
     run.require_label("list-of-25-or-more", 5);
 }
 
+/// One context lives through ALL auto-correct keys (and first through `pass` other words, which shifts every later
+/// keystroke by a few memo entries): thousands of distinct word parts in one context, each list judged as usual.  A
+/// bound on anything the engine keeps per word (256, 1024, 4096 entries ...) is crossed inside this stream, and the
+/// keystroke that crosses it completes an auto-correct key in at least one of the passes.
+fn long_lived_pass(run: &Run, pass: usize, upto: Option<usize>, st: &mut Stats) -> Result<(), Failure> {
+    let p = pools();
+    let sb = Sandbox::new();
+    let ctx = Ctx::new(opts_of(pass), &sb).map_err(|e| Failure::new(panic_kind(&e), e.to_string(), json!({})))?;
+    let user = HashMap::new();
+    for j in 0..pass {
+        let w = format!("q{}", j + 2);
+        type_and_judge(run, &ctx, &w, &user, st, &|| json!({"long_lived_keys": {"pass": pass, "upto": 0}}))?;
+    }
+    for (i, k) in p.ac_keys.iter().enumerate() {
+        if upto.map(|u| i > u).unwrap_or(false) {
+            break;
+        }
+        let case = || json!({"long_lived_keys": {"pass": pass, "upto": i}, "text": k});
+        if let Err(f) = type_and_judge(run, &ctx, k, &user, st, &case) {
+            // the same key in a brand-new context: wrong in itself, or only after everything typed before?
+            let fresh = Ctx::new(opts_of(pass), &sb).map_err(|e| Failure::new(panic_kind(&e), e.to_string(), case()))?;
+            let was = st.frozen;
+            st.frozen = true;
+            let alone = type_and_judge(run, &fresh, k, &user, st, &case);
+            st.frozen = was;
+            return Err(match alone {
+                Err(f2) => f2,
+                Ok(()) => Failure::new(format!("warm-only:{}", f.kind), format!("only after {i} other auto-correct keys in the same context (history dependence): {}", f.message), f.case),
+            });
+        }
+    }
+    st.label("long-lived-context-all-auto-correct-keys");
+    Ok(())
+}
+
 pub fn run(run: &Run) {
+    let passes: Vec<usize> = (0..8).collect();
+    run.exhaustive("one-context-through-all-auto-correct-keys", &passes, |_| (), |&pass, st, _| long_lived_pass(run, pass, None, st));
     long_lists(run);
     // exhaustive short texts
     let all = crate::driver::typeable();
@@ -380,6 +417,9 @@ pub fn run(run: &Run) {
 }
 
 pub fn replay(run: &Run, case: &Value) -> Result<(), Failure> {
+    if let Some(l) = case.get("long_lived_keys") {
+        return long_lived_pass(run, l["pass"].as_u64().unwrap_or(0) as usize, Some(l["upto"].as_u64().unwrap_or(0) as usize), &mut Stats::new());
+    }
     let c = Case {
         text: case["text"].as_str().unwrap_or_default().to_string(),
         optidx: case["optidx"].as_u64().unwrap_or(0) as usize,
